@@ -145,7 +145,10 @@ def main():
 
     for h in hs:
         if h.get("anomaly"):
-            R.violation("anomaly-" + h["impl"], "aggsigdb %s: %s" % (h["impl"], h["anomaly"]), replay_of(h))
+            key = "anomaly-" + h["impl"]
+            if h["anomaly"].startswith("wedged"):
+                key = ("wedged-after-cancelled-read-" if any(o["op"] == "cread" for o in h["script"]) else "wedged-") + h["impl"]
+            R.violation(key, "aggsigdb %s: %s" % (h["impl"], h["anomaly"]), replay_of(h))
     for shard_i, shard in enumerate(vp.chunks(hs, 1000)):
         rc, out = vp.coq_eval("C17_%d" % shard_i, cases_v(shard))
         if rc != 0:
@@ -156,6 +159,8 @@ def main():
             for cid, idx in pairs(vp.parse_marked(out, marker)):
                 h = byid[cid]
                 hit_ids.add(cid)
+                if h.get("anomaly"):
+                    continue   # already reported with the anomaly
                 lab = h["labels"][idx] if idx < len(h["labels"]) else "?"
                 key, what = classify(h["impl"], lab)
                 R.violation(key, "%s: %s — monitor fails at label %d (%s)" % (h["impl"], what, idx, lab), replay_of(h, idx))
